@@ -14,7 +14,7 @@ C04_RULES = {'GranulesNeverDecrease', 'GranuleIsSampleEnd', 'EosOnlyOnLastPacket
              'NoCrash', 'CallsTerminate', 'LibraryNeverExits', 'UnknownEvent'}
 C05_RULES = {'AudioPacketHeaderValid', 'WindowFlagsAgree', 'PacketNumbersSequential', 'PacketNotEmpty', 'HeadersAccepted', 'HeaderConveysInfo',
              'IdHeaderMatchesInfo', 'PacketDecodes', 'ConsumedToLastByte', 'NeverRunsOutOfBits', 'TruncationOnlyUnderHardMax', 'PaddingOnlyUnderHardMin',
-             'SynthesisInitSucceeds', 'HeaderOutSucceeds', 'AddBlockReturnsZero', 'ChoiceInRange', 'NoCrash', 'CallsTerminate', 'LibraryNeverExits', 'UnknownEvent'}
+             'SynthesisInitSucceeds', 'HeaderOutSucceeds', 'NoRateManagerWhenSwitchedOff', 'AddBlockReturnsZero', 'ChoiceInRange', 'NoCrash', 'CallsTerminate', 'LibraryNeverExits', 'UnknownEvent'}
 
 def block_mc(tier):
     """Exhaustive composition encoder blocking x decoder blocking (Block_MC)."""
@@ -155,16 +155,22 @@ def fam_signals(rng, n, nsamp):
     sigs = list(range(10))
     for i in range(n):
         sig = sigs[i % 10]; cfg = rng.choice(CONFIGS[:16]) if i >= 10 else CONFIGS[i % 6]
-        man = cfg[2] == 'm'
-        if man and rng.random() < .8:
+        if i % 8 == 3: cfg = rng.choice([c for c in CONFIGS if c[2] == 'm'])
+        man = cfg[2] == 'm'; r = rng.random()
+        if man and (i % 8 == 3 or r < .3):
+            # a managed mode with hard limits whose management is switched off again before the set-up is frozen
+            nom = cfg[3][1]
+            ls = ['einit 0', f'eman 0 {cfg[0]} {cfg[1]} {nom*2} {nom} {nom//2}',
+                  rng.choice(['ectl 0 rm2null', 'ectl 0 rm2set 0 0 0 0 1500 4000 100', f'ectl 0 rm2set 0 {nom//2000} {nom//500} 0 1500 4000 100']), 'esetup 0']
+            sig = rng.choice([2, 9, 1, 6])
+        elif man and r < .75:
             ctl = rng.choice(MAN_CTL[1:])
             ls = ['einit 0', f'eman 0 {cfg[0]} {cfg[1]} {cfg[3][0]} {cfg[3][1]} {cfg[3][2]}', 'ectl 0 rm2get', 'ectl 0 rm2set ' + ' '.join(map(str, ctl)), 'esetup 0']
-        elif not man and rng.random() < .3:
+        elif not man and r < .3:
             # bitrate management switched on over a quality-selected mode
             ls = ['einit 0', f'evbr 0 {cfg[0]} {cfg[1]} {cfg[3]}', 'ectl 0 rm2set ' + ' '.join(map(str, rng.choice(MAN_CTL[1:]))), 'esetup 0']
         else:
             ls = setup_lines(cfg, rng.random() < .5)
-            if not ls[-1].startswith('esetup') and False: pass
         if rng.random() < .3 and ls[-1] == 'esetup 0':
             ls.insert(-1, rng.choice(['ectl 0 cpset 0', 'ectl 0 lowset 9000', 'ectl 0 ibset -80', 'ectl 0 lowset 30000']))
         N = rng.choice([nsamp, nsamp // 2, nsamp * 2])
